@@ -360,6 +360,28 @@ pub fn literal_spelling_programs() -> Vec<String> {
     out
 }
 
+/// string literals of every spelling (well-formed and malformed escapes) in every position that takes
+/// a string, `import` included (the paths start with `scratch_`: nothing outside the scratch directory
+/// is named): each is accepted or rejected with an error value
+pub fn string_spelling_programs() -> Vec<String> {
+    let tails = [
+        "", "a", "\\n", "\\t\\r", "\\\\", "\\\"", "\\'", "\\0", "\\q", "\\e", "\\ ", "\\u{41}", "\\u{0}", "\\u{110000}", "\\u{d800}", "\\u{}", "\\u{1234567}", "\\u{zz}",
+        "\\u", "\\u{", "\\u41", "\\x41", "\\x4", "\\x", "\\xzz", "\\xff", "\\101", "\\N{DASH}", "é\\q", "\\\\q", "\\q\\n", "{}", "\\{", "\\(1)",
+    ];
+    let positions = [
+        "import @", "lib := import @", "lib := import @; lib.p", "f := () { lib := import @ }", "{ import @ }", "x := (import @)", "m := mod { lib := import @ }",
+        "@", "x := @; x", "@ + \"a\"", "std.len(@)", "[@]", "(@, 1).0", "match \"a\" { @ => 1, => 2, }", "@[0]", "@[1:]", "struct{a := @}.a", "mut string @",
+        "f := (s: string) -> string { return s; }; f(@)", "if @ == \"a\" { 1 } else { 2 }", "return @", "[@; 2]", "std.convert.parse_int(@)",
+    ];
+    let mut out = vec![];
+    for p in positions {
+        for t in tails {
+            out.push(p.replace('@', &format!("\"scratch_{t}\"")));
+        }
+    }
+    out
+}
+
 /// functions declared to return a value whose body can be left without executing a `return`:
 /// every `return` sits inside a construct that may not run. The checker must reject them, or the
 /// call must still yield a value of the declared type.
